@@ -42,24 +42,48 @@ extern "C" void c18_csv()
     for (int i = 0; i < len[f]; ++i) if ((int)back[f].size() == len[f]) verif_assert(back[f][i] == bytes[f][i], "C18: every field comes back with its content (separators, quotes, line breaks included)");
   }
 }
+#include <blocc/plugin_interface.h>
+#define private public
+#define class struct
+#include <blocc/complex.h>
+#undef class
+#undef private
+#include <blocc/plugin.h>
+#include <modules/utf8/plugin_utf8.h>
+// the utf8 module's methods through the real plugin entry point (UTF8Plugin::executeMethod) on a 2-character string;
+// method ids VX_M_AT / VX_M_REMOVE / VX_M_SUBSTR2 are read from the enum in the current plugin_utf8.cpp by the driver
 extern "C" void c18_utf8()
 {
-  utf8helper::UTF8String u;
-  u.Reserve(4);
-  u.WriteByte('a'); u.WriteByte('b');
-  verif_assert(u.Size() == 2 && u.RawSize() == 2, "C18: two ASCII bytes are two characters");
-  long pos = in_long(0), n = in_long(1);
-  verif_known(KF_UTF8_AT_OUT_OF_RANGE, pos < 0 || pos >= 2);
-  /* what the module's at(n) does */
-  utf8helper::codepoint c = u[(size_t)pos];
+  static Context ctx(1, 2);
+  bloc::plugin::UTF8Plugin plug;
+  utf8helper::UTF8String* u = new utf8helper::UTF8String();
+  u->Reserve(4);
+  u->WriteByte('a'); u->WriteByte('b');
+  verif_assert(u->Size() == 2 && u->RawSize() == 2, "C18: two ASCII bytes are two characters");
+  long pos = in_long(0), n = in_long(1); bool pnull = in_bool(0);
+  verif_known(KF_UTF8_AT_OUT_OF_RANGE, !pnull && (pos < 0 || pos >= 2));
+  Complex& obj = *new Complex(1, u);       /* a live handle (never released here) */
+  SymExpr* e0 = new SymExpr(new Value(Integer(pos))); if (pnull) e0->v->swap(Value(Value::type_integer));
+  SymExpr* e1 = new SymExpr(new Value(Integer(n)));
+  std::vector<Expression*> a1(1); a1[0] = e0;
+  std::vector<Expression*> a2(2); a2[0] = e0; a2[1] = e1;
+  Value* r = nullptr; bool thrown = false;
+  try { r = plug.executeMethod(obj, VX_M_AT, ctx, a1); } catch (RuntimeError&) { thrown = true; } catch (...) { verif_assert(false, "C01: only RuntimeError may leave a module method"); return; }
   VX_WITNESS();
-  if (pos == 0) verif_assert(c == (utf8helper::codepoint)'a', "C18: at(0)");
-  if (pos == 1) verif_assert(c == (utf8helper::codepoint)'b', "C18: at(1)");
-  std::string s = u.Substr((size_t)pos, (size_t)n);
-  size_t expect = (pos >= 0 && pos < 2) ? ((unsigned long)n > (unsigned long)(2 - pos) ? (size_t)(2 - pos) : (size_t)n) : 0;
-  verif_assert(s.size() == expect, "C18: substr(pos, n) yields the in-range characters, nothing for an out-of-range position");
-  bool rm = u.Remove((size_t)pos, (size_t)n);
-  verif_assert(rm == (pos >= 0 && pos < 2) && u.Size() == 2 - (rm ? expect : 0), "C18: remove(pos, n) removes exactly the in-range characters");
+  if (pnull || pos < 0 || pos >= 2) verif_assert(thrown, "C18: utf8 at() with a null or out-of-range position raises a BLOC error");
+  else { verif_assert(!thrown && r != nullptr, "C18: utf8 at() succeeds for an in-range position");
+    if (!thrown && r) verif_assert(r->type() == Value::type_integer && *r->integer() == (pos == 0 ? 'a' : 'b'), "C18: utf8 at(p) is code point p"); }
+  if (!pnull) {
+    thrown = false; r = nullptr;
+    try { r = plug.executeMethod(obj, VX_M_SUBSTR2, ctx, a2); } catch (RuntimeError&) { thrown = true; } catch (...) { verif_assert(false, "C01: only RuntimeError may leave a module method"); return; }
+    size_t expect = (pos >= 0 && pos < 2) ? ((unsigned long)n > (unsigned long)(2 - pos) ? (size_t)(2 - pos) : (size_t)n) : 0;
+    verif_assert(!thrown && r != nullptr, "C18: utf8 substr() is total for non-null arguments");
+    if (!thrown && r) verif_assert(r->type() == Value::type_literal && r->literal()->size() == expect, "C18: utf8 substr(pos, n) yields the in-range characters, nothing for an out-of-range position");
+    thrown = false; r = nullptr;
+    try { r = plug.executeMethod(obj, VX_M_REMOVE, ctx, a2); } catch (RuntimeError&) { thrown = true; } catch (...) { verif_assert(false, "C01: only RuntimeError may leave a module method"); return; }
+    verif_assert(!thrown && r != nullptr, "C18: utf8 remove() is total for non-null arguments");
+    if (!thrown && r) { bool rm = *r->boolean(); verif_assert(rm == (pos >= 0 && pos < 2) && u->Size() == 2 - (rm ? expect : 0), "C18: utf8 remove(pos, n) removes exactly the in-range characters"); }
+  }
 }
 
 // c18_csv_ser: CSVParser::serialize of ONE field of <= 2 symbolic bytes with symbolic separator / quote against the
